@@ -380,7 +380,7 @@ fn gen_plan(rng: &mut Prng, forced: Option<(u64, u64)>) -> (ClockSpec, u64) {
         // shifted as a whole, every delta and every literal zero stays what the class made it
         crate::clockgen::pin_special(rng, &mut readings, TT_READS);
     }
-    (ClockSpec { readings, tail_key: rng.u64(), fork_skews: vec![], freeze: None }, class)
+    (ClockSpec { readings, tail_key: rng.u64(), fork_skews: vec![], freeze: None, abort_at: None }, class)
 }
 
 fn holds(e: &TimerError, f: &TimerFacts) -> bool {
@@ -482,7 +482,7 @@ impl Scenario for C13 {
                 let (clock, class) = gen_plan(rng, None);
                 let mut readings = prefix.readings[..base].to_vec();
                 readings.extend(clock.readings);
-                spec.clock = Some(ClockSpec { readings, tail_key: clock.tail_key, fork_skews: vec![], freeze: None });
+                spec.clock = Some(ClockSpec { readings, tail_key: clock.tail_key, fork_skews: vec![], freeze: None, abort_at: None });
                 spec.aux = vec![class, base as u64];
                 return spec;
             }
@@ -513,7 +513,7 @@ impl Scenario for C13 {
         let mut readings = first.readings;
         let base = readings.len();
         readings.extend(second.readings);
-        spec.clock = Some(ClockSpec { readings, tail_key: second.tail_key, fork_skews: vec![], freeze: None });
+        spec.clock = Some(ClockSpec { readings, tail_key: second.tail_key, fork_skews: vec![], freeze: None, abort_at: None });
         spec.aux = vec![class, base as u64, shape];
         spec
     }
